@@ -468,21 +468,25 @@ Proof. destruct o; reflexivity. Qed.
 Lemma marshal_norm_gate g : marshal_gate (norm_gate g) = marshal_gate g.
 Proof. destruct g as [o i0 i1 out]. destruct o; reflexivity. Qed.
 
-Lemma gates_marshal gs : forall fuel ng b s gate acc (def : N -> Prop),
-  (forall w, smem s w = true <-> def w) -> dbu (s_len s) def gs -> s_len s <= two32 ->
+Lemma seen_set_chk_ok iw s o : (iw <= Z.of_N o)%Z -> seen_set_chk iw s o = seen_set s o.
+Proof. intros H. unfold seen_set_chk. apply Z.ltb_ge in H. rewrite H. reflexivity. Qed.
+
+Lemma gates_marshal iw gs : forall fuel ng b s gate acc (def : N -> Prop),
+  (forall w, smem s w = true <-> def w) -> dbu (s_len s) def gs -> no_input_overwrite iw gs -> s_len s <= two32 ->
   gate + nlen gs <= ng -> rd_ok (flat_map marshal_gate gs, b) ->
   (length (flat_map marshal_gate gs) < fuel)%nat ->
-  exists s', mpclc_gates true fuel ng (flat_map marshal_gate gs, b) s gate acc
+  exists s', mpclc_gates true iw fuel ng (flat_map marshal_gate gs, b) s gate acc
              = Ok (rev acc ++ map norm_gate gs, s', gate + nlen gs)
      /\ s_len s' = s_len s /\ forall w, smem s' w = true <-> defs def gs w.
 Proof.
-  induction gs as [|g t IH]; intros fuel ng b s gate acc def Hdef Hdbu Hlen Hng Hok Hf;
+  induction gs as [|g t IH]; intros fuel ng b s gate acc def Hdef Hdbu Hnio Hlen Hng Hok Hf;
     (destruct fuel as [|f]; [lia|]).
   - simpl. exists s. rewrite app_nil_r. replace (gate + nlen (@nil gateN)) with gate by (unfold nlen; simpl; lia).
     repeat split; auto.
     + intros H. left. apply Hdef; auto.
     + intros [H|(g & [] & _)]. apply Hdef; auto.
   - cbn [dbu] in Hdbu. destruct Hdbu as (Hi0 & Hd0 & Hi1 & Hout & Hrest).
+    inversion Hnio as [|? ? Hio Hnio']; subst.
     assert (Hgate : (ng <=? gate) = false).
     { apply N.leb_gt. unfold nlen in Hng. simpl length in Hng. lia. }
     assert (Hn1 : gate + 1 + nlen t = gate + nlen (g :: t)) by (unfold nlen; simpl length; lia).
@@ -515,9 +519,9 @@ Proof.
          rewrite !of_be32_be32 by (unfold two32 in *; lia);
          rewrite (check_in_true s i0) by (auto; apply Hdef; auto); cbn [bind];
          rewrite (check_in_true s i1) by (auto; apply Hdef; auto); cbn [bind];
-         rewrite Hset;
-         match goal with |- context [mpclc_gates true _ _ _ _ _ (?g' :: _)] =>
-           destruct (IH f ng b2 s1 (gate + 1) (g' :: acc) (fun w => def w \/ w = out) Hdef1 Hrest Hlen
+         rewrite (seen_set_chk_ok iw s out Hio), Hset;
+         match goal with |- context [mpclc_gates true _ _ _ _ _ _ (?g' :: _)] =>
+           destruct (IH f ng b2 s1 (gate + 1) (g' :: acc) (fun w => def w \/ w = out) Hdef1 Hrest Hnio' Hlen
                        ltac:(lia) Hok2 Hlt) as (s' & -> & Hl' & Hm') end;
          exists s'; rewrite Hn1; (split; [cbn [rev map norm_gate g_op]; rewrite <- app_assoc; reflexivity|]);
          (split; [congruence|]); intros w; rewrite defs_cons; apply Hm'.
@@ -531,8 +535,8 @@ Proof.
     change (skipn 4 (be32 i0 ++ be32 out)) with (be32 out).
     rewrite !of_be32_be32 by (unfold two32 in *; lia).
     rewrite (check_in_true s i0) by (auto; apply Hdef; auto). cbn [bind].
-    rewrite Hset.
-    destruct (IH f ng b2 s1 (gate + 1) (mkG INV i0 0 out :: acc) (fun w => def w \/ w = out) Hdef1 Hrest Hlen
+    rewrite (seen_set_chk_ok iw s out Hio), Hset.
+    destruct (IH f ng b2 s1 (gate + 1) (mkG INV i0 0 out :: acc) (fun w => def w \/ w = out) Hdef1 Hrest Hnio' Hlen
                 ltac:(lia) Hok2 Hlt) as (s' & -> & Hl' & Hm').
     exists s'. rewrite Hn1. split; [cbn [rev map norm_gate g_op g_in0 g_out]; rewrite <- app_assoc; reflexivity|].
     split; [congruence|]. intros w. rewrite defs_cons. apply Hm'.
@@ -602,7 +606,7 @@ Qed.
 Lemma parse_marshal c : wf_marshal c -> ParseMPCLC (Marshal c) = Ok (norm c).
 Proof.
   intros (Hg & Hw & Hni & Hno & Hins & Houts & Hs).
-  destruct Hs as (Hw0 & Hiw & Hng & Hdbu & Hall).
+  destruct Hs as (Hw0 & Hiw & Hng & Hdbu & Hall & Hnio).
   destruct c as [ng nw ins outs gs]. cbn [c_numgates c_numwires c_inputs c_outputs c_gates] in *.
   assert (Hg0 : (0 <= ng)%Z) by lia.
   unfold ParseMPCLC, parse_mpclc, Marshal. cbn [c_numgates c_numwires c_inputs c_outputs c_gates].
@@ -638,7 +642,7 @@ Proof.
   2:{ unfold mark_inputs in Em. cbn [s_len] in Em.
       destruct (Z.of_N (Z.to_N nw) <? io_size ins)%Z eqn:E; [apply Z.ltb_lt in E; lia|discriminate]. }
   destruct (mark_inputs_ok _ _ _ Em) as (Hl0 & _ & Hm0).
-  destruct (gates_marshal gs fuel (Z.to_N ng) b3 s0 0 [] (fun w => (Z.of_N w < io_size ins)%Z))
+  destruct (gates_marshal (io_size ins) gs fuel (Z.to_N ng) b3 s0 0 [] (fun w => (Z.of_N w < io_size ins)%Z))
     as (s' & -> & Hl' & Hm'); auto.
   { rewrite Hl0. exact Hdbu. }
   { rewrite Hl0. unfold two32. lia. }
@@ -673,17 +677,18 @@ Proof.
     constructor; auto. eapply check_in_ok; eauto.
 Qed.
 
-Lemma bristol_outs_sound line : forall n base s l s', bristol_outs line base n s = Ok (l, s') ->
-  length l = n /\ s_len s' = s_len s /\ Forall (fun v => v < s_len s) l /\
+Lemma bristol_outs_sound iw line : forall n base s l s', bristol_outs iw line base n s = Ok (l, s') ->
+  length l = n /\ s_len s' = s_len s /\ Forall (fun v => v < s_len s /\ (iw <= Z.of_N v)%Z) l /\
   forall w, smem s' w = true <-> (smem s w = true \/ In w l).
 Proof.
   induction n as [|k IH]; intros base s l s'; simpl.
   - intros H; inversion H; subst. repeat split; auto. intros [H0|[]]; auto.
   - destruct (nth_error line base) as [f|]; [|discriminate].
     destruct (parse_uint32 f) as [v|]; [|discriminate].
-    destruct (seen_set s v) as [s1|] eqn:Es; [|discriminate].
+    destruct (seen_set_chk iw s v) as [s1|] eqn:Ec; [|discriminate].
+    destruct (seen_set_chk_some _ _ _ _ Ec) as [Es Hiv].
     destruct (seen_set_ok _ _ _ Es) as (Hv & Hl1 & Hm1).
-    destruct (bristol_outs line (S base) k s1) as [[l' s'']| | |] eqn:E; cbn [bind]; try discriminate.
+    destruct (bristol_outs iw line (S base) k s1) as [[l' s'']| | |] eqn:E; cbn [bind]; try discriminate.
     intros H; inversion H; subst. destruct (IH _ _ _ _ E) as (Hl & Hlen & Hf & Hm).
     repeat split.
     + simpl; lia.
@@ -693,8 +698,8 @@ Proof.
     + rewrite Hm, Hm1. simpl. intros [H0|[H0|H0]]; auto.
 Qed.
 
-Lemma bristol_gate_line_sound line s g s' : bristol_gate_line line s = Ok (g, s') ->
-  g_in0 g < s_len s /\ smem s (g_in0 g) = true /\
+Lemma bristol_gate_line_sound iw line s g s' : bristol_gate_line iw line s = Ok (g, s') ->
+  (iw <= Z.of_N (g_out g))%Z /\ g_in0 g < s_len s /\ smem s (g_in0 g) = true /\
   (g_op g <> INV -> g_in1 g < s_len s /\ smem s (g_in1 g) = true) /\
   g_out g < s_len s /\ s_len s' = s_len s /\
   forall w, smem s' w = true <-> (smem s w = true \/ w = g_out g).
@@ -704,16 +709,16 @@ Proof.
   destruct (atoi f0) as [n1|]; [|discriminate]. destruct (atoi f1) as [n2|]; [|discriminate].
   destruct (_ || _); [discriminate|]. destruct (negb _); [discriminate|].
   destruct (bristol_ins line 2 (Z.to_nat n1) s) as [ins| | |] eqn:Ei; cbn [bind]; try discriminate.
-  destruct (bristol_outs line (2 + Z.to_nat n1) (Z.to_nat n2) s) as [[outs s1]| | |] eqn:Eo; cbn [bind]; try discriminate.
+  destruct (bristol_outs iw line (2 + Z.to_nat n1) (Z.to_nat n2) s) as [[outs s1]| | |] eqn:Eo; cbn [bind]; try discriminate.
   destruct (bristol_ins_sound _ _ _ _ _ Ei) as [_ Hins].
-  destruct (bristol_outs_sound _ _ _ _ _ _ Eo) as (_ & Hlen & Houts & Hm).
+  destruct (bristol_outs_sound _ _ _ _ _ _ _ Eo) as (_ & Hlen & Houts & Hm).
   destruct (op_of_name (last line [])) as [o|]; [|discriminate].
   destruct (negb (length ins =? _)%nat) eqn:E1; [discriminate|].
   destruct (negb (length outs =? 1)%nat) eqn:E2; [discriminate|].
   apply negb_false_iff, Nat.eqb_eq in E1, E2.
   destruct ins as [|i0 rest]; [discriminate|]. destruct outs as [|o1 [|? ?]]; try discriminate.
   intros H; inversion H; subst; clear H. cbn [g_op g_in0 g_in1 g_out].
-  inversion Hins as [|? ? [Ha Hb] Hrest]; subst. inversion Houts as [|? ? Ho _]; subst.
+  inversion Hins as [|? ? [Ha Hb] Hrest]; subst. inversion Houts as [|? ? [Ho Hoi] _]; subst.
   repeat split; auto.
   - destruct rest as [|i1 ?]; [destruct o; simpl in E1; try discriminate; congruence|].
     inversion Hrest as [|? ? [Hc Hd] _]; subst. exact Hc.
@@ -723,23 +728,24 @@ Proof.
   - rewrite Hm. simpl. intros [H0|H0]; auto.
 Qed.
 
-Lemma bristol_gates_sound ng lines : forall s gate gs s' n,
-  bristol_gates ng lines s gate = Ok (gs, s', n) ->
-  n = (gate + Z.of_nat (length gs))%Z /\ s_len s' = s_len s /\
+Lemma bristol_gates_sound iw ng lines : forall s gate gs s' n,
+  bristol_gates iw ng lines s gate = Ok (gs, s', n) ->
+  n = (gate + Z.of_nat (length gs))%Z /\ s_len s' = s_len s /\ no_input_overwrite iw gs /\
   forall def : N -> Prop, (forall w, smem s w = true <-> def w) ->
     dbu (s_len s) def gs /\ (forall w, smem s' w = true <-> defs def gs w).
 Proof.
   induction lines as [|line rest IH]; intros s gate gs s' n; simpl.
-  - intros H; inversion H; subst. repeat split; auto; simpl; try lia.
+  - intros H; inversion H; subst. split; [simpl; lia|]. split; [reflexivity|]. split; [constructor|].
+    intros def H0. split; [exact I|]. intros w. split.
     + intros Hw. left. apply H0; auto.
     + intros [Hd|(g & [] & _)]. apply H0; auto.
   - destruct (ng <=? gate)%Z; [discriminate|].
-    destruct (bristol_gate_line line s) as [[g s1]| | |] eqn:Eg; cbn [bind]; try discriminate.
-    destruct (bristol_gates ng rest s1 (gate + 1)%Z) as [[[gs1 s2] n1]| | |] eqn:Er; cbn [bind]; try discriminate.
+    destruct (bristol_gate_line iw line s) as [[g s1]| | |] eqn:Eg; cbn [bind]; try discriminate.
+    destruct (bristol_gates iw ng rest s1 (gate + 1)%Z) as [[[gs1 s2] n1]| | |] eqn:Er; cbn [bind]; try discriminate.
     intros H; inversion H; subst; clear H.
-    destruct (bristol_gate_line_sound _ _ _ _ Eg) as (H0 & H1 & H2 & H3 & Hl1 & Hm1).
-    destruct (IH _ _ _ _ _ Er) as (-> & Hl2 & Hinv).
-    split; [simpl length; lia|]. split; [congruence|].
+    destruct (bristol_gate_line_sound _ _ _ _ _ Eg) as (Hgi & H0 & H1 & H2 & H3 & Hl1 & Hm1).
+    destruct (IH _ _ _ _ _ Er) as (-> & Hl2 & Hn2 & Hinv).
+    split; [simpl length; lia|]. split; [congruence|]. split; [constructor; assumption|].
     intros def Hdef. destruct (Hinv (fun w => def w \/ w = g_out g)) as [Hd Hm].
     { intros w. rewrite Hm1, Hdef. reflexivity. }
     split.
@@ -771,8 +777,8 @@ Proof.
   destruct rest2 as [|l3 rest3]; [discriminate|]. destruct l3 as [|h0 ht]; [discriminate|].
   destruct (atoi h0) as [nov|]; [|discriminate]. destruct (negb _); [discriminate|].
   destruct (bristol_io [78; 79] 1 ht) as [outs| | |]; cbn [bind]; try discriminate.
-  destruct (bristol_gates ng rest3 s0 0%Z) as [[[gs s] gate]| | |] eqn:Eg; cbn [bind]; try discriminate.
-  destruct (bristol_gates_sound _ _ _ _ _ _ _ Eg) as (-> & Hl & Hinv).
+  destruct (bristol_gates _ ng rest3 s0 0%Z) as [[[gs s] gate]| | |] eqn:Eg; cbn [bind]; try discriminate.
+  destruct (bristol_gates_sound _ _ _ _ _ _ _ _ Eg) as (-> & Hl & Hnio & Hinv).
   destruct (negb (_ =? ng)%Z) eqn:E1; [discriminate|]. destruct (negb (all_seen s)) eqn:E2; [discriminate|].
   apply negb_false_iff in E1, E2. apply Z.eqb_eq in E1.
   intros H; inversion H; subst c; clear H. unfold parse_sound.
@@ -1039,19 +1045,20 @@ Proof.
   cbn [uint_args fold_left]. rewrite IH. reflexivity.
 Qed.
 
-Local Opaque dec_N check_in parse_uint32 seen_set.
+Local Opaque dec_N check_in parse_uint32 seen_set seen_set_chk.
 
-Lemma bristol_gate_line_marshal g s s1 def :
+Lemma bristol_gate_line_marshal iw g s s1 def :
   (forall w, smem s w = true <-> def w) -> s_len s <= two32 ->
   g_in0 g < s_len s -> def (g_in0 g) -> (g_op g <> INV -> g_in1 g < s_len s /\ def (g_in1 g)) ->
-  g_out g < s_len s -> seen_set s (g_out g) = Some s1 ->
-  bristol_gate_line (gate_toks g) s = Ok (norm_gate g, s1).
+  g_out g < s_len s -> (iw <= Z.of_N (g_out g))%Z -> seen_set s (g_out g) = Some s1 ->
+  bristol_gate_line iw (gate_toks g) s = Ok (norm_gate g, s1).
 Proof.
-  intros Hdef Hlen Hi0 Hd0 Hi1 Hout Hset. destruct g as [o i0 i1 out].
+  intros Hdef Hlen Hi0 Hd0 Hi1 Hout Hio Hset0. destruct g as [o i0 i1 out].
   cbn [g_op g_in0 g_in1 g_out] in *. unfold two32 in Hlen.
   assert (Hc0 : check_in s i0 = Ok tt) by (apply check_in_true; auto; apply Hdef; auto).
   assert (Hp0 : parse_uint32 (dec_N i0) = Some i0) by (apply parse_uint32_dec; lia).
   assert (Hpo : parse_uint32 (dec_N out) = Some out) by (apply parse_uint32_dec; lia).
+  assert (Hset : seen_set_chk iw s out = Some s1) by (rewrite seen_set_chk_ok; assumption).
   destruct o.
   1-4: destruct (Hi1 ltac:(discriminate)) as [Hi1a Hi1b];
        assert (Hc1 : check_in s i1 = Ok tt) by (apply check_in_true; auto; apply Hdef; auto);
@@ -1062,27 +1069,28 @@ Proof.
   rewrite Hp0, Hc0. simpl. rewrite Hpo, Hset. reflexivity.
 Qed.
 
-Lemma bristol_gates_marshal gs : forall ng s gate (def : N -> Prop),
-  (forall w, smem s w = true <-> def w) -> dbu (s_len s) def gs -> s_len s <= two32 ->
+Lemma bristol_gates_marshal iw gs : forall ng s gate (def : N -> Prop),
+  (forall w, smem s w = true <-> def w) -> dbu (s_len s) def gs -> no_input_overwrite iw gs -> s_len s <= two32 ->
   (gate + Z.of_nat (length gs) <= ng)%Z ->
-  exists s', bristol_gates ng (map gate_toks gs) s gate
+  exists s', bristol_gates iw ng (map gate_toks gs) s gate
              = Ok (map norm_gate gs, s', (gate + Z.of_nat (length gs))%Z)
      /\ s_len s' = s_len s /\ forall w, smem s' w = true <-> defs def gs w.
 Proof.
-  induction gs as [|g t IH]; intros ng s gate def Hdef Hdbu Hlen Hng.
+  induction gs as [|g t IH]; intros ng s gate def Hdef Hdbu Hnio Hlen Hng.
   - simpl. exists s. rewrite Z.add_0_r. repeat split; auto.
     + intros H. left. apply Hdef; auto.
     + intros [H|(g & [] & _)]. apply Hdef; auto.
   - cbn [dbu] in Hdbu. destruct Hdbu as (Hi0 & Hd0 & Hi1 & Hout & Hrest).
+    inversion Hnio as [|? ? Hio Hnio']; subst.
     assert (Hgate : (ng <=? gate)%Z = false) by (apply Z.leb_gt; simpl length in Hng; lia).
     destruct (seen_set_some s (g_out g) Hout) as (s1 & Hset).
     destruct (seen_set_ok _ _ _ Hset) as (_ & Hl1 & Hm1).
     assert (Hdef1 : forall w, smem s1 w = true <-> (def w \/ w = g_out g)).
     { intros w. rewrite Hm1, Hdef. reflexivity. }
     cbn [map bristol_gates]. rewrite Hgate.
-    rewrite (bristol_gate_line_marshal g s s1 def Hdef Hlen Hi0 Hd0 Hi1 Hout Hset). cbn [bind].
+    rewrite (bristol_gate_line_marshal iw g s s1 def Hdef Hlen Hi0 Hd0 Hi1 Hout Hio Hset). cbn [bind].
     rewrite <- Hl1 in Hrest, Hlen.
-    destruct (IH ng s1 (gate + 1)%Z (fun w => def w \/ w = g_out g) Hdef1 Hrest Hlen) as (s' & -> & Hl' & Hm').
+    destruct (IH ng s1 (gate + 1)%Z (fun w => def w \/ w = g_out g) Hdef1 Hrest Hnio' Hlen) as (s' & -> & Hl' & Hm').
     { simpl length in Hng. lia. }
     cbn [bind]. exists s'. split; [f_equal; f_equal; simpl length; lia|].
     split; [congruence|]. intros w. rewrite defs_cons. apply Hm'.
@@ -1126,7 +1134,7 @@ Theorem bristol_roundtrip c : wf_bristol c ->
   ParseBristol (MarshalBristol c) = Ok (bristol_norm c) /\ MarshalBristol (bristol_norm c) = MarshalBristol c.
 Proof.
   intros (Hg & Hw & Hbi & Hbo & Hnz & Hs). split; [|apply marshal_bristol_norm].
-  destruct Hs as (Hw0 & Hiw & Hng & Hdbu & Hall).
+  destruct Hs as (Hw0 & Hiw & Hng & Hdbu & Hall & Hnio).
   destruct c as [ng nw ins outs gs]. cbn [c_numgates c_numwires c_inputs c_outputs c_gates] in *.
   assert (Hg0 : (0 <= ng)%Z) by lia. unfold maxInt32 in *.
   unfold ParseBristol. rewrite MarshalBristol_lines. cbn [c_numgates c_numwires c_inputs c_outputs c_gates].
@@ -1154,7 +1162,7 @@ Proof.
   assert (negb (1 + Z.of_N (nlen outs) =? Z.of_nat (length (io_toks outs)))%Z = false) as ->
     by (apply negb_false_iff, Z.eqb_eq; unfold io_toks; cbn [length]; rewrite map_length; unfold nlen; lia).
   rewrite bristol_io_marshal by exact Hbo1. cbn [bind].
-  destruct (bristol_gates_marshal gs ng s0 0%Z (fun w => (Z.of_N w < io_size ins)%Z)) as (s' & -> & Hl' & Hm'); auto.
+  destruct (bristol_gates_marshal (io_size ins) gs ng s0 0%Z (fun w => (Z.of_N w < io_size ins)%Z)) as (s' & -> & Hl' & Hm'); auto.
   { rewrite Hl0. exact Hdbu. }
   { rewrite Hl0. unfold two32. lia. }
   { lia. }
@@ -1176,7 +1184,7 @@ Proof.
   - cbn [dbu g_in0 g_in1 g_out g_op]. repeat split; try lia; try discriminate; auto; try (intros _; split; [lia|auto]).
     all: try (left; lia); try (right; lia); try (left; right; lia); try (left; left; right; lia); try (left; left; left; right; lia);
       try (left; left; left; left; lia).
-  - intros w Hw. unfold defs.
+  - split; [|repeat constructor; cbn; lia]. intros w Hw. unfold defs.
     assert (Hc : w = 0 \/ w = 1 \/ w = 2 \/ w = 3 \/ w = 4 \/ w = 5 \/ w = 6 \/ w = 7) by lia.
     destruct Hc as [-> | [-> | [-> | [-> | [-> | [-> | [-> | ->]]]]]]];
       first [ left; lia
@@ -1232,3 +1240,26 @@ Proof.
     simpl in Ec. repeat (apply andb_true_iff in Ec; destruct Ec as [?H Ec]).
     repeat match goal with H : (_ =? _) = true |- _ => apply N.eqb_eq in H; subst end. reflexivity.
 Qed.
+
+(* ================================================================== *)
+(* gates that write an input wire are rejected (commit 407ba55) *)
+Lemma parse_rejects_input_overwrite bs c : ParseMPCLC bs = Ok c \/ ParseBristol bs = Ok c ->
+  forall g, In g (c_gates c) -> (io_size (c_inputs c) <= Z.of_N (g_out g))%Z.
+Proof.
+  intros H. assert (Hs : parse_sound c).
+  { destruct H as [H|H]; [exact (mpclc_sound true true bs c H)|exact (bristol_sound bs c H)]. }
+  destruct Hs as (_ & _ & _ & _ & _ & Hn). unfold no_input_overwrite in Hn. rewrite Forall_forall in Hn. exact Hn.
+Qed.
+
+(* the step itself: whatever the state, an output id below the number of input wires is an error *)
+Lemma seen_set_chk_rejects iw s o : (Z.of_N o < iw)%Z -> seen_set_chk iw s o = None.
+Proof. Transparent seen_set_chk. intros H. unfold seen_set_chk. apply Z.ltb_lt in H. rewrite H. reflexivity. Qed.
+
+(* XOR 0 0 0 on a 1-input circuit, in both formats: rejected *)
+Example xor000_mpclc_rejected :
+  ParseMPCLC (be32 (Z.to_N circuit_MAGIC) ++ be32 1 ++ be32 1 ++ be32 1 ++ be32 0 ++
+              be32 0 ++ be32 2 ++ [117; 49] ++ be32 1 ++ be32 0 ++ [0] ++ be32 0 ++ be32 0 ++ be32 0) = Err.
+Proof. vm_compute. reflexivity. Qed.
+Example xor000_bristol_rejected :
+  ParseBristol [49;32;49;10; 49;32;49;10; 49;32;49;10; 10; 50;32;49;32;48;32;48;32;48;32;88;79;82;10] = Err.
+Proof. vm_compute. reflexivity. Qed.
